@@ -72,6 +72,7 @@ fn main() {
             19 => m_waker::run(&hdr[1..], &rows_in, &mut mon),
             119 => m_waker::run_threads(&hdr[1..], &rows_in, &mut mon),
             110 => m_arc::run_threads(&hdr[1..], &rows_in, &mut mon),
+            210 => m_arc::run_calls(&hdr[1..], &rows_in, &mut mon),
             21 => m_box::run(&hdr[1..], &rows_in, &mut mon),
             _ => vec![vec![-3]],
         };
